@@ -280,3 +280,53 @@ def rst_rule(ctx, repo):
                 ctx.violation('sna2ctl -r ' + name, where, '%s: control file %s; sna2skool warnings %s; skool2bin %d bytes at %d: %s, original %s' % (full, ctl_lines, warns[:2], len(image), base, list(image), data))
                 break
             ctx.ok({'case': full})
+
+
+def comments_rule(ctx, repo):
+    """C14.8 (*fold*): sna2ctl -C.  generate_ctls + write_ctl with comments folded on code images that hold prefix bytes without an opcode
+    after them (DD DD .., FD DD .., DD ED .., a lone CB / ED / DD / FD as the last byte of memory, DD CB d cut off by the top of memory) and on
+    one image per first opcode byte: the control file is written (no exception), its instruction-comment lines have strictly increasing
+    addresses inside the block, one per instruction the decoder sees."""
+    ctx.rule('C14.8-comments', 'sna2ctl -C folded on images with prefix bytes that have no opcode after them (inside code and at the top of memory) and on one image per first opcode byte: a control file comes out, comment lines tile the code block', floor=40)
+    P = CtlPipeline(repo)
+    cfs = P.cf.sibling('snactl')
+    where = 'skoolkit/comment.py, skoolkit/snactl.py'
+    cases = [('DD DD NOP RET', 30000, [0xDD, 0xDD, 0x00, 0xC9]), ('FD DD LD IX,0 RET', 30000, [0xFD, 0xDD, 0x21, 0x00, 0x00, 0xC9]),
+             ('DD ED NEG RET', 30000, [0xDD, 0xED, 0x44, 0xC9]), ('FD FD FD RET', 30000, [0xFD, 0xFD, 0xFD, 0xC9]),
+             ('NOP ED at the top of memory', 65534, [0x00, 0xED]), ('NOP CB at the top of memory', 65534, [0x00, 0xCB]),
+             ('NOP DD at the top of memory', 65534, [0x00, 0xDD]), ('NOP FD at the top of memory', 65534, [0x00, 0xFD]),
+             ('DD CB d cut off by the top of memory', 65533, [0xDD, 0xCB, 0x05]), ('LD A,n cut off by the top of memory', 65534, [0x00, 0x3E]),
+             ('JP nn cut off by the top of memory', 65533, [0x00, 0xC3, 0x00])]
+    step = 1 if ctx.tier == 'thorough' else 8
+    for op in range(ctx.seed % step, 256, step):
+        for pre in ((), (0xDD,), (0xED,), (0xCB,), (0xFD, 0xCB)):
+            if pre == (0xFD, 0xCB):
+                data = [0xFD, 0xCB, 0x07, op, 0xC9]
+            else:
+                data = list(pre) + [op, 0x12, 0x34, 0xC9]
+            cases.append(('%s + RET' % ' '.join('%02X' % b for b in data[:-1]), 40000, data))
+    seen = set()
+    for name, start, data in cases:
+        snap = [0] * 65536
+        snap[start:start + len(data)] = data
+        end = start + len(data)
+        cfg = Rec(handle_rst=0, text_chars='', text_min_length_code=12, text_min_length_data=3, words=())
+        try:
+            ctls = cfs.call_func('snactl', 'generate_ctls', [snap, start, end, None, cfg])
+            P.lines = []
+            cfs.call_func('snactl', 'write_ctl', [ctls, snap, Rec(handle_rst=0, comments=1, ctl_hex=0)])
+            lines = list(P.lines)
+        except NotLiteral as e:
+            ctx.limit(name, 'not foldable: %s' % str(e)[:120])
+            continue
+        except (KeyError, IndexError, ValueError, TypeError, AttributeError, NameError) as e:
+            key = type(e).__name__
+            if key not in seen:
+                seen.add(key)
+                ctx.violation('sna2ctl -C ' + key, where, 'sna2ctl -C on bytes %s at %d (%s) fails with %s: %s - no control file is written' % (data, start, name, type(e).__name__, str(e)[:100]))
+            continue
+        addrs = [int(l.split()[0]) for l in lines if l.startswith('  ')]
+        if addrs != sorted(set(addrs)) or any(a < start or a >= end for a in addrs):
+            ctx.violation('sna2ctl -C comment lines', where, 'sna2ctl -C on bytes %s at %d (%s): comment lines at %s are not strictly increasing inside %d..%d' % (data, start, name, addrs, start, end))
+        else:
+            ctx.ok({'image': name, 'lines': len(lines)})
